@@ -132,6 +132,26 @@ impl RowOracle {
     /// The per-step oracle of C11/C03: returns the (site-suffix, message) complaints.
     pub fn judge(&self, ctx: &mut Ctx, cfg: &Cfg, st: &Step<Slots>) -> Vec<(String, String)> {
         let mut out = vec![];
+        let d_ms = cfg.args.delete_after.saturating_mul(1000);
+        if let Act::Burst(lines) = &st.action.act {
+            // a burst of frames of bystanders (it forces the sweep): every row of another aircraft that was
+            // heard fewer than delete_after seconds ago must come out bit-identical; older rows may be swept
+            if !st.outcome.is_ok() {
+                out.push(("crash".into(), format!("reader ended with {}", st.outcome.label())));
+                return out;
+            }
+            let senders: Vec<u32> = lines.iter().filter_map(|l| match classify_line(l) { Verdict::Frame { addr, .. } if addr != 0 => Some(addr), _ => None }).collect();
+            ctx.count("step:burst");
+            for r in st.pre.iter().filter(|r| !senders.contains(&r.key)) {
+                match st.post.iter().find(|x| x.key == r.key) {
+                    Some(a) if a == r => {}
+                    Some(a) => out.push(("cross-talk".into(), format!("a burst of frames of {:06X?} changed the row of {:06X}: {}", senders.first(), r.key, crate::snap::diff_fields(r, a).join("; ")))),
+                    None if r.age >= d_ms => ctx.count("step:burst:swept-old-row"),
+                    None => out.push(("key-set".into(), format!("a burst of frames of other aircraft removed {:06X}, heard {} ms ago (delete_after {} s)", r.key, r.age, cfg.args.delete_after))),
+                }
+            }
+            return out;
+        }
         let Act::Line(line) = &st.action.act else {
             return out;
         };
@@ -154,19 +174,20 @@ impl RowOracle {
         let f = st.action.frame().expect("accepted frame parses");
         let sm = sem::sem(&f);
         // key set and isolation
-        let mut want_keys: Vec<u32> = st.pre.iter().map(|r| r.key).collect();
-        if !want_keys.contains(&addr) {
-            want_keys.push(addr);
-            want_keys.sort();
-        }
+        // rows heard delete_after or more seconds ago may be swept by any frame; nothing else may vanish or appear
         let got_keys: Vec<u32> = st.post.iter().map(|r| r.key).collect();
-        if got_keys != want_keys {
+        let required = st.pre.iter().filter(|r| r.age < d_ms).map(|r| r.key).chain([addr]);
+        let allowed = |k: u32| k == addr || st.pre.iter().any(|r| r.key == k);
+        if !required.clone().all(|k| got_keys.contains(&k)) || !got_keys.iter().all(|k| allowed(*k)) {
             out.push(("key-set".into(), format!("rows before {:X?}, after {got_keys:X?}, frame is for {addr:06X}", st.pre.iter().map(|r| r.key).collect::<Vec<_>>())));
             return out;
         }
         for r in st.pre {
             if r.key != addr {
                 let after = st.post.iter().find(|x| x.key == r.key);
+                if after.is_none() && r.age >= d_ms {
+                    continue;
+                }
                 if after != Some(r) {
                     let d = after.map(|a| crate::snap::diff_fields(r, a).join("; ")).unwrap_or_default();
                     out.push(("cross-talk".into(), format!("a frame for {addr:06X} changed the row of {:06X}: {d}", r.key)));
@@ -174,6 +195,11 @@ impl RowOracle {
             }
         }
         let pre_row = st.pre.iter().find(|r| r.key == addr);
+        if pre_row.is_some_and(|r| r.age >= d_ms) {
+            // the aircraft was silent for delete_after or more: its row may have been swept and started afresh
+            ctx.count("step:own-row-expirable (not judged)");
+            return out;
+        }
         let post_row = st.post.iter().find(|r| r.key == addr).expect("key set checked");
         let blank = sem::blank_row(addr, self.lookup.code(addr));
         let chk = sem::check_row(&sm, self.relaxed, Some(OBSERVER), pre_row, &blank, post_row, st.post_aux.get(addr));
